@@ -1,8 +1,8 @@
 """K2 adapter for MinSetCover (`_encode_set_cover`, built by the constructor).
 
 Elements travel as strings; on the python side digit strings become ints (so that the universe mixes ints and
-strs), subsets are handed over as lists, sets or tuples. `subset_weights=None` is generated rarely: the
-constructor then raises TypeError (`None[i]`) unless `subsets` is empty."""
+strs), subsets are handed over as lists, sets or tuples. `subset_weights=None` (the documented default,
+unit weights since fix 3364d5e) is sent to the Lean generator as `null`."""
 import atexit
 from collections import Counter
 from fpv.common import qstr, frac
@@ -27,7 +27,7 @@ def gen_cfg(rng):
     if rng.random() < 0.1 and subsets:
         subsets.append(list(subsets[0]))                      # repeated subset
     mode = rng.random()
-    if mode < 0.05:
+    if mode < 0.15:
         weights = None
     elif mode < 0.5:
         weights = [qstr(rng.randint(1, 9)) for _ in subsets]
@@ -61,7 +61,7 @@ def build_real(fp, cfg):
 
 def to_request(cfg):
     u, ss = cfg["universe"], cfg["subsets"]
-    HIST["weights=None (no subsets)" if cfg["weights"] is None else "explicit weights"] += 1
+    HIST["weights=None (unit weights)" if cfg["weights"] is None else "explicit weights"] += 1
     if not u:
         HIST["empty universe"] += 1
     if not ss:
@@ -80,4 +80,4 @@ def to_request(cfg):
         HIST["more weights than subsets"] += 1
     if any(len(set(s)) < len(s) for s in ss):
         HIST["subset with repeated element"] += 1
-    return {"op": "lp.msc", "universe": u, "subsets": ss, "weights": cfg["weights"] or []}
+    return {"op": "lp.msc", "universe": u, "subsets": ss, "weights": cfg["weights"]}
